@@ -4,8 +4,8 @@ in one file of a scratch copy of the repository."""
 MUTATIONS = []
 
 
-def M(id, props, file, old, new, note, tests=None, harmless=False):
-    MUTATIONS.append(dict(id=id, props=props, file=file, old=old, new=new, note=note, tests=tests or [], harmless=harmless))
+def M(id, props, file, old, new, note, tests=None, harmless=False, all=False):
+    MUTATIONS.append(dict(id=id, props=props, file=file, old=old, new=new, note=note, tests=tests or [], harmless=harmless, all=all))
 
 
 # ------------------------------- C01 --------------------------------------
@@ -228,14 +228,28 @@ M("M_C15_b", ["C15"], "cotengra/utils.py",
   "            with open(tmpname, \"wb\") as f:\n                os.replace(tmpname, fname)\n                pickle.dump(v, f)",
   "temporary file renamed into place before the data is written", ["tests/test_optimizers.py"])
 M("M_C15_c", ["C15"], "cotengra/utils.py",
-  "            tmpname = fname.with_name(f\".{fname.name}.{os.getpid()}.tmp\")\n",
-  "            tmpname = fname.with_name(f\".{fname.name}.{os.getpid()}.tmp\") if not fname.exists() else fname\n",
+  "            with open(tmpname, \"wb\") as f:\n                pickle.dump(v, f)\n            os.replace(tmpname, fname)",
+  "            if fname.exists():\n                tmpname = fname\n            with open(tmpname, \"wb\") as f:\n                pickle.dump(v, f)\n            os.replace(tmpname, fname)",
   "existing entries are still overwritten in place", ["tests/test_optimizers.py"])
 M("M_C15_d", ["C15"], "cotengra/utils.py",
-  "            tmpname = fname.with_name(f\".{fname.name}.{os.getpid()}.tmp\")\n",
-  "            tmpname = fname.with_name(f\"{fname.name}.{os.getpid()}.partial\")\n",
+  "                f\".{fname.name}.{os.getpid()}.{threading.get_ident()}.tmp\"",
+  "                f\"{fname.name}.{os.getpid()}.{threading.get_ident()}.partial\"",
   "harmless: different temporary name", ["tests/test_optimizers.py"], harmless=True)
 M("M_C15_e", ["C15"], "cotengra/utils.py",
   "            with open(tmpname, \"wb\") as f:\n                pickle.dump(v, f)\n            os.replace(tmpname, fname)",
   "            data = pickle.dumps(v)\n            with open(tmpname, \"wb\") as f:\n                f.write(data[:-1])\n            os.replace(tmpname, fname)\n            with open(fname, \"ab\") as f:\n                f.write(data[-1:])",
   "last byte appended after the rename (two cooperating steps, each looks fine)", ["tests/test_optimizers.py"])
+
+# ------------------------------- C16 --------------------------------------
+M("M_C16_a", ["C16"], "cotengra/reusable.py",
+  "threading.get_ident()",
+  "0",
+  "per-thread last sub-optimizer replaced by ONE shared slot (needs a particular interleaving of two threads)", ["tests/test_optimizers.py"], all=True)
+M("M_C16_c", ["C16"], "cotengra/presets.py",
+  "        tid = threading.get_ident()\n        try:\n            return self._hyperoptimizers_by_thread[tid]",
+  "        tid = 0\n        try:\n            return self._hyperoptimizers_by_thread[tid]",
+  "one reusable hyper-optimizer shared by all threads of an AutoOptimizer", ["tests/test_optimizers.py"])
+M("M_C16_d", ["C16"], "cotengra/presets.py",
+  "        if self._optimizer_hyper_cls is HyperOptimizer:\n",
+  "        if self._optimizer_hyper_cls is None:\n",
+  "revert of the cache=False fix (F5)", ["tests/test_optimizers.py"])
